@@ -44,7 +44,7 @@ def esc_attr(s):
     return esc_text(s).replace("'", "&apos;").replace('"', "&quot;")
 
 
-def to_xml(n, prefix="", quote="'", indent=None, ns_decl=True, root=True, junk=None, char_map=None):
+def to_xml(n, prefix="", quote="'", indent=None, ns_decl=True, root=True, junk=None, char_map=None, empty_junk=None):
     """prefix: namespace prefix for elements ('' = default namespace); junk: callable() -> string inserted between elements
     (comments / PIs / whitespace); char_map: callable(ch) -> replacement markup for a text character (entity spelling)."""
     p = prefix + ":" if prefix else ""
@@ -68,9 +68,11 @@ def to_xml(n, prefix="", quote="'", indent=None, ns_decl=True, root=True, junk=N
         for k in n.kids:
             if junk:
                 s += junk()
-            s += to_xml(k, prefix, quote, indent, ns_decl, False, junk, char_map)
+            s += to_xml(k, prefix, quote, indent, ns_decl, False, junk, char_map, empty_junk)
         if junk and n.kids:       # only *between elements*: never as the sole content of an empty element such as <none/>
             s += junk()
+        if empty_junk and not n.kids and n.tag not in ("none", "mprescripts", "mspace", "maligngroup", "malignmark"):
+            s += empty_junk()     # white space as the sole content of an empty container (<mrow>\n</mrow>): what pretty printers write
     s += "</" + p + n.tag + ">"
     return s
 
